@@ -302,6 +302,56 @@ func runC17(c *Ctx) {
 			c.Law(out == "bad-signature", "C17/bad-signature-accepted", "only func(Collection, ...) (Collection, error) values are accepted as custom functions", fc.line, out)
 		}
 	}
+	// every entry point hands the options on: Evaluate and the typed helpers see the same variables and report the same
+	// option failures
+	{
+		in := []fhir.Resource{mustResource(`{"resourceType":"Patient","id":"p1"}`)}
+		type helper struct {
+			name string
+			src  string
+			val  any
+			call func(e *fhirpath.Expression, opts ...fhirpath.EvaluateOption) (string, error)
+		}
+		hs := []helper{
+			{"Evaluate", "%x", system.Integer(7), func(e *fhirpath.Expression, opts ...fhirpath.EvaluateOption) (string, error) {
+				r, err := e.Evaluate(in, opts...)
+				return fmt.Sprint(r), err
+			}},
+			{"EvaluateAsBool", "%x", system.Boolean(true), func(e *fhirpath.Expression, opts ...fhirpath.EvaluateOption) (string, error) {
+				r, err := e.EvaluateAsBool(in, opts...)
+				return fmt.Sprint(r), err
+			}},
+			{"EvaluateAsString", "%x", system.String("s"), func(e *fhirpath.Expression, opts ...fhirpath.EvaluateOption) (string, error) {
+				r, err := e.EvaluateAsString(in, opts...)
+				return fmt.Sprint(r), err
+			}},
+			{"EvaluateAsInt32", "%x", system.Integer(7), func(e *fhirpath.Expression, opts ...fhirpath.EvaluateOption) (string, error) {
+				r, err := e.EvaluateAsInt32(in, opts...)
+				return fmt.Sprint(r), err
+			}},
+		}
+		for _, h := range hs {
+			e, err := fhirpath.Compile(h.src)
+			if err != nil {
+				continue
+			}
+			var got string
+			var gerr error
+			_, pan, _ := safeErr(func() error { got, gerr = h.call(e, evalopts.EnvVariable("x", h.val)); return nil })
+			want := map[string]string{"Evaluate": "[7]", "EvaluateAsBool": "true", "EvaluateAsString": "s", "EvaluateAsInt32": "7"}[h.name]
+			c.Observe("helper options "+h.name, true)
+			c.Law(!pan && gerr == nil && got == want, "C17/variable-position", "a variable evaluates to the supplied value wherever it is referenced", h.name+"(%x) with %x supplied", fmt.Sprint(got, " ", gerr))
+			for what, bad := range map[string][]fhirpath.EvaluateOption{
+				"a duplicate name":    {evalopts.EnvVariable("x", h.val), evalopts.EnvVariable("x", h.val)},
+				"a predefined name":   {evalopts.EnvVariable("x", h.val), evalopts.EnvVariable("ucum", system.String("u"))},
+				"an unsupported type": {evalopts.EnvVariable("x", h.val), evalopts.EnvVariable("y", struct{}{})},
+			} {
+				var berr error
+				_, pan, _ := safeErr(func() error { _, berr = h.call(e, bad...); return nil })
+				c.Law(!pan && berr != nil, "C17/failing-option-ignored", "if any option fails Evaluate returns that error", h.name+" with "+what, fmt.Sprint(berr))
+			}
+		}
+	}
 	// one name, two registrations in the same Compile: rejected (the later one does not silently win), also
 	// for a name that only the experimental table defines
 	for _, tc := range []struct {
